@@ -316,8 +316,8 @@ def family(name):
     return _FAMS[name]
 
 
-def pick_family(rng):
-    names = [n for n, w in FAMILY_WEIGHTS for _ in range(w)]
+def pick_family(rng, weights=None):
+    names = [n for n, w in (weights or FAMILY_WEIGHTS) for _ in range(w)]
     return family(rng.choice(names))
 
 
@@ -348,10 +348,10 @@ def grow(fam, rng, width0, depth, maxw):
     return d, tags
 
 
-def gen(rng):
+def gen(rng, weights=None):
     """(family name, diagram with >= 1 wire or box, tags)."""
     while True:
-        fam = pick_family(rng)
+        fam = pick_family(rng, weights)
         width0 = rng.choice([0, 1, 2, 2, 3, 3, 4])
         depth = rng.choice([1, 2, 3, 3, 4, 5, 6, 8])
         d, tags = grow(fam, rng, width0, depth, maxw=max(width0, rng.choice([3, 4, 5, 6])))
@@ -678,6 +678,286 @@ def spiders_real(fig, boxpos):
     calls.sort()
     return "ok " + " ".join([str(len(calls))] + [
         " ".join([s, str(len(ns))] + ["%d %s" % n for n in ns]) for s, ns in calls])
+
+
+# ------------------------------------------------------------------ histories of drawing
+
+# A drawing is a function of the diagram (the property's "faithful ... of the diagram", read on state):
+# the SAME objects drawn again after the user changed a drawing attribute must give the picture of an EQUAL
+# diagram built from fresh objects carrying the user's attributes, and drawing must leave the user's boxes
+# as they were (no attribute added, none changed).
+
+DRAW_ATTRS = ("draw_as_spider", "draw_as_wires", "shape", "color", "drawing_name", "tikzstyle_name")
+# plain monoidal boxes most often (the only class `downgrade` does not have to change), every other
+# family next to them
+HIST_WEIGHTS = [("monoidal", 9), ("rigid", 4), ("tensor", 2), ("zx", 3), ("circuit", 3), ("cartesian", 1)]
+HIST_KW = [{}, {}, {}, {}, {"use_tikzstyles": True}, {"use_tikzstyles": True}, {"draw_box_labels": False},
+           {"nodesize": 2}, {"draw_type_labels": False}, {"asymmetry": 0.5}, {"fontsize": 8}]
+HIST_ACTIONS = ["tikz"] * 8 + ["mpl"] * 8 + ["nx"] * 2 + ["tensor_tikz", "tensor_mpl",
+                                                          "equation_tikz", "equation_mpl"]
+
+
+def state(diagrams):
+    """What a user can observe of the boxes of `diagrams`: per box (also the box under a Controlled gate
+    and the boxes inside a bubble) its identity, class and every `__dict__` entry, values by repr."""
+    out = []
+
+    def visit(path, b, depth):
+        out.append((path, id(b), type(b).__name__,
+                    tuple(sorted((str(k), safe_repr(v, 300)) for k, v in vars(b).items()))))
+        if depth < 3:
+            inner = vars(b).get("controlled")
+            if inner is not None and hasattr(inner, "__dict__"):
+                visit(path + ".controlled", inner, depth + 1)
+            inside = vars(b).get("inside")
+            if inside is not None and hasattr(inside, "boxes"):
+                for j, c in enumerate(inside.boxes):
+                    if c is not b:
+                        visit("%s.inside.boxes[%d]" % (path, j), c, depth + 1)
+    for n, d in enumerate(diagrams):
+        for k, b in enumerate(getattr(d, "boxes", [])):
+            visit("diagram %d box %d" % (n, k), b, 0)
+    return out
+
+
+def state_diff(before, after):
+    """Differences between two `state`s, as text (empty = the drawing left the user's objects alone)."""
+    out = []
+    if len(before) != len(after):
+        return ["%d boxes before, %d after" % (len(before), len(after))]
+    for (path, ident, cls, attrs), (_, ident2, cls2, attrs2) in zip(before, after):
+        if ident != ident2 or cls != cls2:
+            out.append("%s: another object (%s -> %s)" % (path, cls, cls2))
+            continue
+        a, b = dict(attrs), dict(attrs2)
+        for k in sorted(set(a) | set(b)):
+            if k not in a:
+                out.append("%s (%s): attribute %r ADDED = %s" % (path, cls, k, b[k][:80]))
+            elif k not in b:
+                out.append("%s (%s): attribute %r REMOVED (was %s)" % (path, cls, k, a[k][:80]))
+            elif a[k] != b[k]:
+                out.append("%s (%s): attribute %r CHANGED %s -> %s" % (path, cls, k, a[k][:80], b[k][:80]))
+    return out
+
+
+def mpl_artists(fig):
+    """Every artist on the axes of a figure (scatter collections, patches, texts, lines), canonical and
+    sorted: two equal diagrams drawn with the same arguments put the same artists on the axis."""
+    out = []
+    for ax in fig.axes:
+        for col in ax.collections:
+            nv = [len(p.vertices) for p in col.get_paths()]
+            out.append("collection offsets=%r face=%r edge=%r sizes=%r paths=%r" % (
+                col.get_offsets().tolist(), col.get_facecolors().tolist(), col.get_edgecolors().tolist(),
+                col.get_sizes().tolist(), nv))
+        for p in ax.patches:
+            path = p.get_path()
+            out.append("patch %s vertices=%r codes=%r face=%r edge=%r" % (
+                type(p).__name__, path.vertices.tolist(),
+                None if path.codes is None else path.codes.tolist(),
+                tuple(p.get_facecolor()), tuple(p.get_edgecolor())))
+        for t in ax.texts:
+            out.append("text %r at %r size=%r ha=%s va=%s" % (
+                t.get_text(), tuple(float(v) for v in t.get_position()), t.get_fontsize(),
+                t.get_ha(), t.get_va()))
+        for ln in ax.lines:
+            out.append("line %r" % (ln.get_xydata().tolist(), ))
+    return sorted(out)
+
+
+def nx_canon(graph, pos):
+    """diagram2nx's answer with what the back-ends read off it: node, position, and for a box node the
+    drawing attributes the graph's box carries."""
+    out = []
+    for node in graph.nodes:
+        extra = ""
+        if node.kind == "box":
+            extra = " " + repr([(a, getattr(node.box, a, "<absent>")) for a in DRAW_ATTRS])
+        out.append("%r at %r%s" % (node, pos[node], extra))
+    out.sort()
+    return out + sorted("%r -> %r" % e for e in graph.edges)
+
+
+def perform(action, d, kw, tmpdir, plt, raster=False):
+    """One act of drawing on `d`; returns its output in comparable form (TikZ text / sorted artists /
+    graph).  Library exceptions propagate."""
+    import warnings
+    from discopy import drawing
+    if action == "nx":
+        return nx_canon(*drawing.diagram2nx(d))
+    backend = action.rsplit("_", 1)[-1]
+    if action.startswith("tensor"):
+        both = d @ d
+        draw = lambda **q: both.draw(show=False, **q)                      # noqa: E731
+    elif action.startswith("equation"):
+        draw = lambda **q: drawing.equation(d, d, show=False, **q)         # noqa: E731
+    else:
+        draw = lambda **q: d.draw(show=False, **q)                         # noqa: E731
+    try:
+        if backend == "tikz":
+            path = os.path.join(tmpdir, "h.tikz")
+            draw(to_tikz=True, path=path, **kw)
+            return open(path).read()
+        with warnings.catch_warnings():
+            warnings.simplefilter("ignore")
+            draw(**kw)
+            out = mpl_artists(plt.gcf())
+            if raster:
+                plt.close("all")
+                path = os.path.join(tmpdir, "h.png")
+                draw(path=path, **dict(kw, figsize=(2, 1.5)))
+                out.append("png written: %s" % (os.path.getsize(path) > 0))
+            return out
+    finally:
+        plt.close("all")
+        for f in os.listdir(tmpdir):
+            os.remove(os.path.join(tmpdir, f))
+
+
+def apply_op(d, op):
+    kind, i, attr, value = op
+    if kind == "set":
+        setattr(d.boxes[i], attr, value)
+    else:
+        delattr(d.boxes[i], attr)
+
+
+def first_difference(got, want):
+    a = got.splitlines() if isinstance(got, str) else list(got)
+    b = want.splitlines() if isinstance(want, str) else list(want)
+    only_a = [x for x in a if x not in b][:3]
+    only_b = [x for x in b if x not in a][:3]
+    return "only in the drawing of the user's diagram: %r; only in the drawing of the fresh equal diagram: %r" \
+        % ([x[:200] for x in only_a], [x[:200] for x in only_b])
+
+
+class History:
+    """The user's diagram (`diagram`, the SAME objects through the whole history), the operations the
+    user did on its boxes, and a way to build an equal diagram from fresh objects with those
+    operations replayed.  `shadow` is a copy no library drawing function ever sees: the operations are
+    chosen from ITS attributes, so the history does not depend on what drawing did to `diagram`."""
+
+    def __init__(self, seed, build=None, name=None):
+        import random
+        self.seed, self.name = seed, name
+        self.build = build or (lambda: gen(random.Random(seed), HIST_WEIGHTS))
+        self.family, self.diagram, self.tags = self.build()
+        self.shadow = self.build()[1]
+        assert self.shadow == self.diagram
+        # library singletons (zx.H, gates.X, ...) are shared by every diagram: never written to
+        self.mutable = sorted({i for i, (a, b) in enumerate(zip(self.diagram.boxes, self.shadow.boxes))
+                               if a is not b})
+        self.ops, self.log = [], []
+
+    def fresh(self):
+        d = self.build()[1]
+        for op in self.ops:
+            apply_op(d, op)
+        return d
+
+    def gen_ops(self, rng, first):
+        """0-1 operations before the first draw (the first picture is mostly that of the constructor's
+        attributes), 1-3 between draws."""
+        if not self.mutable:
+            return []
+        out = []
+        for _ in range(rng.choice([0, 0, 1]) if first else rng.choice([1, 1, 2, 3])):
+            i = rng.choice(self.mutable)
+            b = self.shadow.boxes[i]
+            r = rng.random()
+            own = [a for a in DRAW_ATTRS if a in vars(b)]
+            if r < 0.38:
+                op = ("set", i, "draw_as_spider", not getattr(b, "draw_as_spider", False))
+            elif r < 0.48:
+                op = ("set", i, "shape", rng.choice(["circle", "rectangle"]))
+            elif r < 0.62:
+                op = ("set", i, "color", rng.choice(COLOR_NAMES))
+            elif r < 0.70:
+                op = ("set", i, "drawing_name", rng.choice(["", "renamed", "$\\beta$", 3]))
+            elif r < 0.76:
+                op = ("set", i, "tikzstyle_name", rng.choice(["Z", "X", "mystyle"]))
+            elif r < 0.84:
+                op = ("set", i, "draw_as_wires", not getattr(b, "draw_as_wires", False))
+            elif own:
+                op = ("del", i, rng.choice(own), None)
+            else:
+                op = ("set", i, "draw_as_spider", not getattr(b, "draw_as_spider", False))
+            apply_op(self.shadow, op)
+            out.append(op)
+        return out
+
+    def step(self, ops, action, kw, tmpdir, plt, raster=False, shadow_done=True):
+        """The user applies `ops` to the boxes, then draws.  Returns (failures [(signature, text)],
+        counters).  `shadow_done`: the ops come from `gen_ops`, which applied them to the shadow."""
+        fails, counts = [], []
+        for op in ops:
+            if not shadow_done:
+                apply_op(self.shadow, op)
+            try:
+                apply_op(self.diagram, op)
+            except Exception as exc:
+                fails.append(("hist_attribute_operation_raises", "%r: %r" % (op, exc)))
+            self.ops.append(op)
+            counts.append("hist_op:%s_%s" % (op[0], op[2]) + (
+                "=%r" % op[3] if isinstance(op[3], bool) else ""))
+        self.log.append(dict(ops=[list(op) for op in ops], action=action, kwargs=repr(kw)))
+        ref = self.fresh()
+        assert ref == self.diagram, "history: the fresh diagram is not equal to the user's"
+        backend = "diagram2nx" if action == "nx" else \
+            "tikz" if action.endswith("tikz") else "matplotlib"
+        before = state([self.diagram])
+        got = want = None
+        try:
+            got = perform(action, self.diagram, kw, tmpdir, plt, raster)
+        except Exception as exc:
+            fails.append((known_signature([self.diagram], exc) or "hist_%s_raises" % backend,
+                          "step %d (%s): %s: %s" % (len(self.log), action, type(exc).__name__,
+                                                    str(exc)[:300])))
+        diff = state_diff(before, state([self.diagram]))
+        if diff:
+            fails.append(("hist_%s_changes_user_boxes" % backend,
+                          "step %d (%s): %s" % (len(self.log), action, "; ".join(diff[:6]))))
+        try:
+            want = perform(action, ref, kw, tmpdir, plt, raster)
+        except Exception as exc:
+            fails.append((known_signature([ref], exc) or "hist_fresh_diagram_%s_raises" % backend,
+                          "step %d (%s) on the FRESH equal diagram: %s: %s" % (
+                              len(self.log), action, type(exc).__name__, str(exc)[:300])))
+        if got is not None and want is not None and got != want:
+            fails.append(("hist_%s_differs_from_fresh_equal_diagram" % backend,
+                          "step %d (%s): %s" % (len(self.log), action, first_difference(got, want))))
+        counts.append("hist_action:" + action)
+        return fails, counts
+
+    def describe(self):
+        return dict(stream="draw_history", history_seed=self.seed, pinned=self.name, family=self.family,
+                    diagram=safe_repr(self.diagram), steps=list(self.log),
+                    boxes_now=describe(self.diagram)[:30],
+                    attributes_the_user_set=describe(self.shadow)[:30])
+
+
+def pinned_histories():
+    """Fixed histories next to the generated ones: [(History, [(ops, action, kwargs), ...])]."""
+    from discopy import monoidal as M, rigid as R
+
+    def frobenius(mod):
+        def build():
+            x = mod.Ty("x")
+            copy, merge = mod.Box("copy", x, x @ x), mod.Box("merge", x @ x, x)
+            return "pinned", copy >> mod.Id(x) @ copy >> merge @ mod.Id(x), ["pinned"]    # copy used twice
+        return build
+    out = []
+    for mod, first, second in [(M, "tikz", "mpl"), (M, "mpl", "tikz"), (M, "nx", "mpl"),
+                               (R, "tikz", "mpl"), (R, "mpl", "tikz")]:
+        h = History(0, frobenius(mod), name="frobenius:%s:%s_then_%s" % (mod.__name__, first, second))
+        out.append((h, [
+            ([], first, {}),
+            ([("set", 0, "draw_as_spider", True)], second, {}),
+            ([("set", 2, "draw_as_spider", True), ("set", 2, "color", "green")], first if first != "nx" else "tikz",
+             {"use_tikzstyles": True}),
+            ([("set", 0, "draw_as_spider", False)], second, {}),
+        ]))
+    return out
 
 
 # ------------------------------------------------------------------ the graph: shadow for the model
